@@ -803,3 +803,22 @@ Lemma framing_example :
 Proof.
   split; [split; [repeat constructor; discriminate | repeat constructor; lia] | vm_compute; reflexivity].
 Qed.
+
+(** * FSimpleServer.accept with the FBaseProcessor of Model/Processor.v (C14's model) *)
+From FV Require Model.Processor.
+
+Definition base_process (svc : list Processor.mdesc) (h : Processor.handler) (etext : bytes)
+  (frame : bytes) : res bool :=
+  Ok (negb (fst (Processor.process svc h true etext frame))).
+
+Lemma accept_base_processor_total svc h etext maxlen chunks final : chunking_ok chunks ->
+  let r := accept_loop (base_process svc h etext) (S (length (concat chunks))) maxlen (fresh chunks final) in
+  accept_end_ok (snd r) /\
+  r = flat_accept_loop (base_process svc h etext) (S (length (concat chunks))) maxlen final (concat chunks) /\
+  (exists rest, concat chunks = frames_wire (fst r) ++ rest).
+Proof.
+  intros Hc r.
+  destruct (accept_loop_total (base_process svc h etext) maxlen chunks final (fun _ => I) Hc)
+    as (H1 & H2 & H3 & _).
+  auto.
+Qed.
